@@ -28,13 +28,28 @@ def conc(v, sp, of_int=False):
     return "".join(sp[k] for k in v)
 
 
+_LL, _CALLS = {}, [0]
+
+
+def _long_lived(key, make):
+    """Every second request is answered with a long-lived middleware object (one per option set for the whole run): what a
+    middleware does to a value is a function of that value and of the record on its block, not of earlier work."""
+    _CALLS[0] += 1
+    if _CALLS[0] % 2:
+        return make()
+    if key not in _LL:
+        _LL[key] = make()
+    return _LL[key]
+
+
 def mw_remove(bib, inplace):
-    return bib.middlewares.RemoveEnclosingMiddleware(allow_inplace_modification=inplace)
+    return _long_lived(("remove", inplace), lambda: bib.middlewares.RemoveEnclosingMiddleware(allow_inplace_modification=inplace))
 
 
 def mw_add(bib, o, inplace):
-    return bib.middlewares.AddEnclosingMiddleware(reuse_previous_enclosing=o["reuse"], enclose_integers=o["encInts"],
-                                                  default_enclosing=o["def"], allow_inplace_modification=inplace)
+    return _long_lived(("add", o["reuse"], o["encInts"], o["def"], inplace),
+                       lambda: bib.middlewares.AddEnclosingMiddleware(reuse_previous_enclosing=o["reuse"], enclose_integers=o["encInts"],
+                                                                      default_enclosing=o["def"], allow_inplace_modification=inplace))
 
 
 def mk_lib(bib, key, value, as_string):
